@@ -192,34 +192,37 @@ func runBatch(r *vf.Run, b batch) {
 // accountRaces attributes race reports to C12: a report counts iff a stargz-snapshotter
 // frame of one of its two access stacks matches the attribution set. One exception that
 // vf's substring-exclude cannot express: reports in which one access stack runs inside the
-// body closure of layer.backgroundFetch (backgroundFetch.func1.1) and the other one inside
-// layer.backgroundFetch as well (a second body of the same invocation, or backgroundFetch's
-// own caller reading the buffer after InvokeBackgroundTask returned). That is the defect of
-// task.InvokeBackgroundTask (it retries or returns after cancel() without waiting for the
-// cancelled body: overlapping bodies, writes after return), which belongs to C13 and is
-// attributed by C13/C15; it says nothing about holders or resource reclamation. A race of
-// the body against anything else (e.g. layer.close) is still attributed here. The exempted
-// reports are listed in the evidence as races_owned_by_C13.
+// body closure of layer.backgroundFetch (backgroundFetch.func1.1: it writes the caller's
+// read buffer and result variables) and NO frame of either stack matches the attribution
+// set other than through layer.backgroundFetch itself. Those are: a second body of the same
+// invocation, or the consumer of the buffer (backgroundFetch's caller chain: section reader
+// -> decompressor -> readAndCache) reading it after InvokeBackgroundTask returned. That is
+// the defect of task.InvokeBackgroundTask (it retries or returns after cancel() without
+// waiting for the cancelled body: overlapping bodies, writes after return), which belongs
+// to C13 and is attributed by C13/C15; it says nothing about holders or resource
+// reclamation. A race of the body against layer.close, the Resolver, a layerRef, cacheutil
+// or namedmutex is still attributed here. The exempted reports are listed in the evidence
+// as races_owned_by_C13.
 func accountRaces(r *vf.Run, reps []vf.RaceReport) {
 	const mod = "github.com/containerd/stargz-snapshotter/"
 	for _, rep := range reps {
-		hit := false
-		inBody, inBG := [2]bool{}, [2]bool{}
-		for side, st := range rep.Access {
+		hit, hitOther, inBody := false, false, false
+		for _, st := range rep.Access {
 			for _, fn := range st {
 				if !strings.HasPrefix(fn, mod) {
 					continue
 				}
 				short := strings.TrimPrefix(fn, mod)
+				bgf := strings.Contains(short, "fs/layer.(*layer).backgroundFetch") || strings.Contains(short, "fs/layer.(*layer).BackgroundFetch") || strings.Contains(short, "fs/layer.(*layerRef).BackgroundFetch")
 				if strings.Contains(short, "fs/layer.(*layer).backgroundFetch.func1.1") {
-					inBody[side] = true
-				}
-				if strings.Contains(short, "fs/layer.(*layer).backgroundFetch") {
-					inBG[side] = true
+					inBody = true
 				}
 				for _, a := range attribution {
 					if strings.Contains(short, a) {
 						hit = true
+						if !bgf {
+							hitOther = true
+						}
 					}
 				}
 			}
@@ -229,7 +232,7 @@ func accountRaces(r *vf.Run, reps []vf.RaceReport) {
 		sort.Strings(fr)
 		key := "race:" + fr[0] + "|" + fr[1]
 		switch {
-		case (inBody[0] && inBG[1]) || (inBody[1] && inBG[0]):
+		case inBody && !hitOther:
 			r.Distinct("races_owned_by_C13", key)
 			r.Count("race_reports_owned_by_C13", 1)
 		case hit:
